@@ -358,7 +358,96 @@ pub fn check_snippet(
     None
 }
 
+fn collect_tokens(ts: &mut dyn TokenStream, limit: usize) -> Vec<(String, usize, usize, usize)> {
+    let mut v = vec![];
+    while v.len() < limit && ts.advance() {
+        let t = ts.token();
+        v.push((t.text.clone(), t.offset_from, t.offset_to, t.position));
+    }
+    v
+}
+
+/// reuse protocol: an analyzer whose previous stream was dropped after k tokens must tokenize the next text
+/// exactly like a fresh analyzer (no state leaks from one stream into the next)
+pub fn check_reuse(t1: &str, k: usize, t2: &str, tok: &str, filters: &[String]) -> Option<Violation> {
+    let case = json!({"kind":"reuse","text":t1,"k":k,"text2":t2,"tokenizer":tok,"filters":filters});
+    let r = catch_unwind(AssertUnwindSafe(|| {
+        let mut an = build_analyzer(tok, filters);
+        {
+            let mut s1 = an.token_stream(t1);
+            let _ = collect_tokens(&mut s1, k);
+        }
+        let got = {
+            let mut s2 = an.token_stream(t2);
+            collect_tokens(&mut s2, 1000)
+        };
+        let mut fresh = build_analyzer(tok, filters);
+        let mut s = fresh.token_stream(t2);
+        let want = collect_tokens(&mut s, 1000);
+        (got, want)
+    }));
+    match r {
+        Err(e) => Some(Violation::new("tokenizer_panic", format!("analyzer {tok}+{filters:?} reused after {k} tokens of {t1:?} panicked on {t2:?}: {}", panic_message(e)), case)),
+        Ok((got, want)) if got != want => Some(Violation::new(
+            "analyzer_reuse_leaks_state",
+            format!("analyzer {tok}+{filters:?}: after a stream on {t1:?} dropped after {k} tokens, the stream on {t2:?} yields {got:?}; a fresh analyzer yields {want:?}"),
+            case,
+        )),
+        _ => None,
+    }
+}
+
+/// snippet_from_doc on documents holding zero, one (also empty) or several values for the field
+pub fn check_snippet_from_doc(values: &[String], other_first: bool) -> Option<Violation> {
+    use tantivy::schema::{Schema, STORED, TEXT};
+    let case = json!({"kind":"snippet_doc","values":values,"other_first":other_first});
+    let r = catch_unwind(AssertUnwindSafe(|| {
+        let mut sb = Schema::builder();
+        let title = sb.add_text_field("title", TEXT | STORED);
+        let body = sb.add_text_field("body", TEXT | STORED);
+        let _schema = sb.build();
+        let mut doc = tantivy::TantivyDocument::default();
+        if other_first {
+            doc.add_text(title, "a B");
+        }
+        for v in values {
+            doc.add_text(body, v);
+        }
+        if !other_first {
+            doc.add_text(title, "a B");
+        }
+        let mut tm: BTreeMap<String, f32> = BTreeMap::new();
+        tm.insert("a".to_string(), 1.0);
+        let gen = SnippetGenerator::new(tm, build_analyzer("simple", &["lower".to_string()]), body, 20);
+        let sn = gen.snippet_from_doc(&doc);
+        let joined = values.join(" ");
+        (sn.fragment().to_string(), sn.highlighted().to_vec(), joined, sn.to_html())
+    }));
+    match r {
+        Err(e) => Some(Violation::new("snippet_panic", format!("snippet_from_doc on a document with body values {values:?} panicked: {}", panic_message(e)), case)),
+        Ok((fragment, hl, joined, _html)) => {
+            if !joined.contains(fragment.as_str()) {
+                return Some(Violation::new("snippet_fragment_not_substring", format!("snippet_from_doc, body values {values:?}: fragment {fragment:?} is not part of the field's text"), case));
+            }
+            for r in &hl {
+                if !(r.start <= r.end && r.end <= fragment.len()) || !fragment.is_char_boundary(r.start) || !fragment.is_char_boundary(r.end) {
+                    return Some(Violation::new("snippet_highlight_outside_fragment_or_boundary", format!("snippet_from_doc, body values {values:?}: fragment {fragment:?} highlight {r:?}"), case));
+                }
+            }
+            None
+        }
+    }
+}
+
 pub fn replay(case: &Value) -> Vec<Violation> {
+    if case["kind"] == "snippet_doc" {
+        let values: Vec<String> = serde_json::from_value(case["values"].clone()).unwrap_or_default();
+        return check_snippet_from_doc(&values, case["other_first"].as_bool().unwrap_or(false)).into_iter().collect();
+    }
+    if case["kind"] == "reuse" {
+        let filters: Vec<String> = serde_json::from_value(case["filters"].clone()).unwrap_or_default();
+        return check_reuse(case["text"].as_str().unwrap_or(""), case["k"].as_u64().unwrap_or(0) as usize, case["text2"].as_str().unwrap_or(""), case["tokenizer"].as_str().unwrap_or("simple"), &filters).into_iter().collect();
+    }
     let filters: Vec<String> = case["filters"]
         .as_array()
         .map(|a| a.iter().map(|x| x.as_str().unwrap().to_string()).collect())
@@ -442,6 +531,74 @@ pub fn run(ctx: &Ctx) -> Report {
     rep.set("tokens.analyzers", items.len() as u64);
     rep.set("tokens.text_len_all_chains", l_all as u64);
     rep.set("tokens.text_len_chains_le1", l_plain as u64);
+
+    // ---- family R: reuse protocol. every analyzer with <= 1 filter (and every 2-chain containing the compound
+    // splitter on the word tokenizers) x every pair of texts of <= 2 symbols over a reduced alphabet x the first
+    // stream dropped after 0, 1, 2 or all of its tokens
+    {
+        let small: Vec<String> = {
+            let sym = ["a", "B", " ", "\u{e9}", "1", "-"];
+            let mut v = vec![String::new()];
+            for a in sym {
+                v.push(a.to_string());
+                for b in sym {
+                    v.push(format!("{a}{b}"));
+                    if thorough {
+                        for c in sym {
+                            v.push(format!("{a}{b}{c}"));
+                        }
+                    }
+                }
+            }
+            v
+        };
+        let mut ritems: Vec<(usize, Vec<String>)> = vec![];
+        for (ti, tok) in TOKENIZERS.iter().enumerate() {
+            for c in &plain_chains {
+                ritems.push((ti, c.clone()));
+            }
+            if *tok == "simple" || *tok == "whitespace" {
+                for c in &all_chains {
+                    if c.len() == 2 && c.iter().any(|f| f == "compound") {
+                        ritems.push((ti, c.clone()));
+                    }
+                }
+            }
+        }
+        let (rst, rdone) = par_for(ctx, ritems.len(), |i, st| {
+            let (ti, chain) = &ritems[i];
+            let tok = TOKENIZERS[*ti];
+            'outer: for t1 in &small {
+                for t2 in &small {
+                    for k in [0usize, 1, 2, 1000] {
+                        st.eval();
+                        st.count("reuse_cases");
+                        if k > 0 && !t1.is_empty() {
+                            st.nontrivial(&("reuse", tok, chain, t1, t2, k));
+                        }
+                        if let Some(v) = check_reuse(t1, k, t2, tok, chain) {
+                            st.violation(v);
+                            break 'outer;
+                        }
+                    }
+                }
+            }
+        });
+        if rdone != ritems.len() {
+            st.errors.push("reuse family incomplete (time budget)".into());
+        }
+        st.merge(rst);
+    }
+    // ---- family D: snippet_from_doc over documents with 0..2 values for the field
+    for values in [vec![], vec![String::new()], vec!["a".to_string()], vec!["B a".to_string(), "a".to_string()], vec![String::new(), "a B".to_string()], vec!["\u{e9}".to_string()], vec![" ".to_string()]] {
+        for other_first in [false, true] {
+            st.eval();
+            st.count("snippet_from_doc_cases");
+            if let Some(v) = check_snippet_from_doc(&values, other_first) {
+                st.violation(v);
+            }
+        }
+    }
 
     // ---- designated long texts
     let long_texts: Vec<String> = vec![
